@@ -249,6 +249,7 @@ func init() {
 			ruleRectMirror("C06.mirror"),
 			ruleSegIntersectMirrorSem("C06.mirror.seg"),
 			ruleInsideArmMirror("C06.mirror.inside"),
+			ruleInsideArmStrict("C06.inside.strict"),
 			ruleRetireBeforeRelabel("C06.retire"),
 			ruleRectSkipOnly("C06.skip-only", "(RectClip64).Execute", []string{"(RectClip64).executeInternal"}),
 			ruleCyclicPred("C06.wrap", []string{"(RectClip64).executeInternal"}, 1, "the polygon is closed: the edge entering vertex 0 starts at the LAST vertex; any other choice clips a segment that is not an edge of the input"),
